@@ -138,6 +138,8 @@ class C06(Prop):
             c.future = False
         if rng.random() < 0.15:
             c.untyped = 0.2
+        if kind.startswith('dt') and rng.random() < 0.25:
+            c.term_temporal = 0.3          # rate-of-change predicates: abs(x - (prev x)) <= 1
         modular = rng.random() < 0.2
         if modular:
             c.dup = 0.4
